@@ -254,6 +254,76 @@ def run(tier, seed):
     broke = broke or b2
     concrete = concrete or c2
 
+  # ---- the in-memory best-trial query: InRamPolicySupporter.GetBestTrials() against the definition, incl. infeasible /
+  # unfinished / partial trials anywhere in the study, ties, +-inf, NaN objectives and safety metrics (documented semantics:
+  # a reported safety metric on the wrong side of its threshold makes the trial unsafe; its objectives count as the worst value)
+  try:
+    from vizier import pyvizier as vz_
+    from vizier._src.pythia import local_policy_supporters as lps_
+    import math as _m
+    rb = C.rng(seed, 'c11best')
+    MAXG, MING = vz_.ObjectiveMetricGoal.MAXIMIZE, vz_.ObjectiveMetricGoal.MINIMIZE
+    for bi in range(60 if tier == 'quick' else 600):
+      nobj = rb.choice([1, 1, 2, 2, 3])
+      goals = [rb.choice([MAXG, MING]) for _ in range(nobj)]
+      nsafe = rb.choice([0, 0, 1, 2])
+      sgoals = [rb.choice([MAXG, MING]) for _ in range(nsafe)]
+      prob_ = vz_.ProblemStatement()
+      prob_.search_space.root.add_float_param('x', 0.0, 1.0)
+      for j, g in enumerate(goals):
+        prob_.metric_information.append(vz_.MetricInformation(name='o%d' % j, goal=g))
+      for j, g in enumerate(sgoals):
+        prob_.metric_information.append(vz_.MetricInformation(name='s%d' % j, goal=g, safety_threshold=1.0))
+      sup_ = lps_.InRamPolicySupporter(prob_)
+      rows, trials_ = [], []
+      for ti in range(rb.randrange(1, 8)):
+        kind = rb.choice(['ok', 'ok', 'ok', 'ok', 'infeasible', 'active', 'missing', 'nan', 'inf'])
+        t_ = vz_.Trial(parameters={'x': 0.5})
+        vec, safe = None, True
+        if kind == 'infeasible':
+          t_.complete(vz_.Measurement({'o0': 9.0} if rb.random() < 0.5 else {}), infeasibility_reason='bad')
+        elif kind == 'active':
+          pass
+        else:
+          m = {'o%d' % j: float(rb.randrange(0, 3)) for j in range(nobj)}
+          if kind == 'missing':
+            m.pop('o%d' % rb.randrange(nobj))
+          elif kind == 'nan':
+            m['o%d' % rb.randrange(nobj)] = float('nan')
+          elif kind == 'inf':
+            m['o%d' % rb.randrange(nobj)] = rb.choice([float('inf'), float('-inf')])
+          for j, g in enumerate(sgoals):
+            if rb.random() < 0.7:
+              v_ = rb.choice([0.0, 1.0, 2.0])
+              m['s%d' % j] = v_
+              if (g == MAXG and not v_ >= 1.0) or (g == MING and not v_ <= 1.0):
+                safe = False
+          t_.complete(vz_.Measurement(m))
+          if all(('o%d' % j) in m and not _m.isnan(m['o%d' % j]) for j in range(nobj)):
+            vec = [(m['o%d' % j] if goals[j] == MAXG else -m['o%d' % j]) for j in range(nobj)]
+            if not safe:
+              vec = [float('-inf')] * nobj
+        rows.append((kind, vec))
+        trials_.append(t_)
+      sup_.AddTrials(trials_)
+      cands = [(i + 1, v) for i, (k_, v) in enumerate(rows) if v is not None]
+      dom = lambda a, b: all(x >= y for x, y in zip(a, b)) and any(x > y for x, y in zip(a, b))
+      want = sorted(i for i, v in cands if not any(dom(w, v) for _, w in cands))
+      try:
+        got = sorted(t.id for t in sup_.GetBestTrials())
+      except Exception as e:  # pylint: disable=broad-except
+        got = 'raised %s' % type(e).__name__
+      rep.case({'best_trials_rows': [(k_, v) for k_, v in rows], 'objectives': nobj, 'safety_metrics': nsafe}, len(cands) > 1)
+      rep.count('best_trials_query')
+      if got != want:
+        concrete = True
+        rep.violation('InRamPolicySupporter.GetBestTrials() differs from the non-dominated completed trials',
+                      {'goals': [g.name for g in goals], 'safety_goals': [g.name for g in sgoals],
+                       'trials': [(k_, None if t.final_measurement is None else {n: mm.value for n, mm in t.final_measurement.metrics.items()})
+                                  for (k_, _v), t in zip(rows, trials_)], 'got': got, 'expected': want})
+  except ImportError:
+    pass
+
   C.settle_broken(rep, broke, concrete)
   return rep.finish()
 
